@@ -5,6 +5,7 @@
   correspondence run; what is proved here is the arithmetic that makes them impossible.
 -/
 import StVerif.Lemmas.UtfString
+import StVerif.Lemmas.UtfLen
 
 namespace StVerif.Props.C03
 open StVerif StVerif.Utf StVerif.Generated StVerif.Lemmas.Utf
@@ -27,25 +28,8 @@ theorem convert_null (src dst : Enc) (m : Mode) (subst : Bool) : convert src dst
 /-- two-pass consistency: whenever the model returns a buffer, the fill pass stored exactly the
     measured number of units (so `size()` equals the units held and nothing is left unwritten) -/
 theorem measure_eq_fill (src dst : Enc) (m : Mode) (subst : Bool) (xs out : List Nat)
-    (h : convert src dst m subst (some xs) = .ok out) : out.length = Utf.measure src dst xs := by
-  unfold convert at h
-  by_cases hh : xs.length ≥ hugeBufferSize
-  · simp [hh] at h
-  · simp only [if_neg hh] at h
-    by_cases hn : Utf.measure src dst xs = 0
-    · simp only [if_pos hn] at h; injection h with h; subst h; simp [hn]
-    · simp only [if_neg hn] at h
-      by_cases hgt : (fill (stepCh src dst m subst) (decode src xs)).out.length > Utf.measure src dst xs
-      · simp [hgt] at h
-      · simp only [if_neg hgt] at h
-        cases hs : (fill (stepCh src dst m subst) (decode src xs)).status with
-        | assertFail msg => rw [hs] at h; cases h
-        | error k => rw [hs] at h; cases h
-        | done =>
-          rw [hs] at h; simp only at h
-          by_cases he : (fill (stepCh src dst m subst) (decode src xs)).out.length = Utf.measure src dst xs
-          · simp only [if_pos he] at h; injection h with h; rw [← h]; exact he
-          · simp [he] at h
+    (h : convert src dst m subst (some xs) = .ok out) : out.length = Utf.measure src dst xs :=
+  convert_ok_length src dst m subst xs out h
 
 /-- on the throwing path nothing was stored past the allocation either -/
 theorem fill_le_measure (src dst : Enc) (hne : src ≠ dst) (m : Mode) (subst : Bool) (xs : List Nat)
